@@ -1423,6 +1423,16 @@ def scale_lines(fn):
     # a statement after an expansion on the same source line cannot exist (the call was a whole statement)
 
 
+def _inverse_map(dc):
+    """{v: k for k, v in D.items()}: the inverse of a mapping (the summary engine reads it as such)"""
+    if not isinstance(dc, ast.DictComp):
+        return False
+    g = dc.generators[0]
+    return isinstance(g.target, ast.Tuple) and len(g.target.elts) == 2 and all(isinstance(e, ast.Name) for e in g.target.elts) \
+        and isinstance(g.iter, ast.Call) and isinstance(g.iter.func, ast.Attribute) and g.iter.func.attr == "items" and not g.ifs \
+        and isinstance(dc.key, ast.Name) and isinstance(dc.value, ast.Name) and dc.key.id == g.target.elts[1].id and dc.value.id == g.target.elts[0].id
+
+
 def listcomps_to_loops(trees, inv):
     """`out = [E for T in IT if C]` bound to a local the inventory's version of the function does not have is the loop it abbreviates:
     `out = []`, `for T in IT: if C: out.append(E)` (the comprehension's variables get fresh names when the function uses them otherwise)"""
@@ -1437,11 +1447,15 @@ def listcomps_to_loops(trees, inv):
             if was is None:
                 continue
             cur = local_bindings(fn)
-            new = set(new) | {n for n, b in cur.items() if ("ListComp(" in b[:40] or "DictComp(" in b[:40]) and n in was and was[n] != b}
+            # (dict comprehensions only: a list comprehension in place of an append loop is read by the engine as it stands)
+            new = set(new) | {n for n, b in cur.items() if "DictComp(" in b[:40] and n in was and was[n] != b
+                              and not ("ListComp(" in was[n][:40] or "DictComp(" in was[n][:40])}
             if not new:
                 continue
             bound = _bound_names(fn)
             done = []
+            # a function that already used a comprehension of that kind keeps its comprehensions (the rules know them in that form)
+            inv_kinds = {k for k in ("ListComp", "DictComp") if k in inv.get("functions", {}).get(mod, {}).get(q, [])}
             for blk_owner in list(ast.walk(fn)):
                 for fld in ("body", "orelse", "finalbody"):
                     blk = getattr(blk_owner, fld, None)
@@ -1451,7 +1465,8 @@ def listcomps_to_loops(trees, inv):
                     while i < len(blk):
                         st = blk[i]
                         if isinstance(st, ast.Assign) and len(st.targets) == 1 and isinstance(st.targets[0], ast.Name) and st.targets[0].id in new \
-                                and isinstance(st.value, (ast.ListComp, ast.DictComp)) and len(st.value.generators) == 1 and not st.value.generators[0].is_async:
+                                and isinstance(st.value, (ast.ListComp, ast.DictComp)) and len(st.value.generators) == 1 and not st.value.generators[0].is_async \
+                                and type(st.value).__name__ not in inv_kinds and not _inverse_map(st.value):
                             g = st.value.generators[0]
                             tv = [y.id for y in ast.walk(g.target) if isinstance(y, ast.Name)]
                             ren = {}
